@@ -128,10 +128,12 @@ func harnessParser(raw []byte, out *cptvframe.Frame, edge int) error {
 func hhmm(m int) string { return fmt.Sprintf("%02d:%02d", m/60, m%60) }
 
 var tailFM, tailFC, tailFT []bool
+var tailReached bool // the last procRun got as far as the recovery tail (it stops at a panic)
 
 func procRun(in procInput) (steps []procStep) {
 	log.SetOutput(ioutil.Discard)
 	tailFM, tailFC, tailFT = nil, nil, nil
+	tailReached = false
 	cam := testCam{4, 4, in.FPS}
 	var outs []procOut
 	var now time.Time
@@ -180,6 +182,7 @@ func procRun(in procInput) (steps []procStep) {
 				}
 			}
 			tailFM, tailFC, tailFT = sm.faults, sc.faults, st.faults
+			tailReached = true
 		}
 		outs = nil
 		winAsked = false
@@ -506,7 +509,10 @@ func procGen(rng *rand.Rand, i int, mode string) procInput {
 		}
 		steps := procRun(in)
 		_ = steps
-		in.FM, in.FC, in.FT = tailFM, tailFC, tailFT
+		// (a run that panicked before the tail keeps its whole scripts: the case must reproduce the panic)
+		if tailReached {
+			in.FM, in.FC, in.FT = tailFM, tailFC, tailFT
+		}
 	}
 	return in
 }
